@@ -630,6 +630,24 @@ func parseTypeExpr(s string) (ast.Expr, error) {
 
 func (e *Env) quant(kind string, args []ast.Expr) Val {
 	c := e.c()
+	if len(args) == 3 {
+		// forall(x, T, P): quantification over all values of a Go type
+		id, ok := args[0].(*ast.Ident)
+		t := e.resolveType(args[1])
+		if !ok || t == nil {
+			panic(e.fail("%s(x, T, P): bad variable or type", kind))
+		}
+		c.fresh++
+		bv := fmt.Sprintf("%s!q%d", id.Name, c.fresh)
+		s := c.sortOf(t)
+		xv := Val{T: Term{bv, s}, Ty: t}
+		body := e.with(id.Name, xv).eval(args[2])
+		rng := c.rangeFact(xv.T, t)
+		if kind == "forall" {
+			return Val{T: T(SBool, "(forall ((%s %s)) %s)", bv, s, Implies(rng, body.T).S), Ty: types.Typ[types.Bool]}
+		}
+		return Val{T: T(SBool, "(exists ((%s %s)) %s)", bv, s, And(rng, body.T).S), Ty: types.Typ[types.Bool]}
+	}
 	if len(args) != 4 {
 		panic(e.fail("%s(i, lo, hi, P) expected", kind))
 	}
@@ -685,6 +703,13 @@ func (e *Env) specCall(sf *SpecFunc, args []ast.Expr) Val {
 		r := specEnv.eval(sf.Expr)
 		if r.Const != nil {
 			r = c.materialise(r, rt)
+		}
+		if isInteger(rt) && r.Ty != nil && isInteger(r.Ty) && (r.Wide || r.T.Sort != c.sortOf(rt)) {
+			// the declared result type decides the width (e.g. byte-valued ite over untyped constants)
+			r = c.convertInt(r, rt, true)
+		}
+		if isInteger(rt) {
+			r.Ty = rt
 		}
 		return r
 	}
